@@ -62,8 +62,14 @@ func (e *Engine) VerifyLemma(key string) (rep *FuncReport) {
 	// two-state lemmas: old(e) reads a second, independent heap
 	stOld := &State{pc: "true", vars: map[types.Object]Val{}, heap: map[string]string{}, epoch: 7, alloc: "alloc!0"}
 	env := &Env{st: st, spec: true, old: stOld, spkg: fi.Pkg.Types, bound: bound}
+	for _, ln := range ct.Uses {
+		c.facts = append(c.facts, c.lemmaFact(ln))
+	}
 	for _, rq := range ct.Requires {
 		c.assume(st, c.eval(env, rq.Expr).T)
+	}
+	if o := c.oblige(st, "vacuity", "requires", "false", "lemma hypotheses satisfiable", false, nil); o != nil {
+		o.MustFail = true
 	}
 	if ct.IndVar != "" {
 		x, ok := bound[ct.IndVar]
@@ -127,6 +133,8 @@ func (c *FnCtx) lemmaFact(name string) string {
 	stOld := &State{pc: "true", vars: map[types.Object]Val{}, heap: map[string]string{}, epoch: -3, alloc: "0", hparam: infoOld}
 	env := &Env{st: st, spec: true, old: stOld, spkg: pkg, bound: bound}
 	nf := len(c.facts)
+	c.noNaming++
+	defer func() { c.noNaming-- }()
 	var req, ens []string
 	for _, rq := range ct.Requires {
 		req = append(req, c.eval(env, rq.Expr).T)
@@ -153,20 +161,53 @@ func (c *FnCtx) lemmaFact(name string) string {
 	}
 	// (typing facts of memory reads are true of every well-typed heap; the quantified heap
 	// parameters range over all arrays, so they stay hypotheses here)
-	guards = append(guards, typing...)
+	// Typing facts of the memory cells the lemma reads are NOT kept as hypotheses: cells read
+	// under quantifiers carry no typing facts at the use site, so the guarded lemma would never
+	// apply.  The lemma is thereby assumed for ill-typed memory too, which no execution has.
+	_ = typing
 	body := implies(and(append(guards, req...)...), and(ens...))
 	// trigger: the applications of recursive spec functions in the conclusion
 	var pats []string
 	seen := map[string]bool{}
 	concl := and(ens...)
-	for i := 0; i+4 < len(concl); i++ {
-		if strings.HasPrefix(concl[i:], "(sf_") {
-			t, _ := readSexp(concl[i:])
-			if !seen[t] {
-				seen[t] = true
-				pats = append(pats, t)
+	hyp := and(req...)
+	collect := func(text, prefix string) {
+		for i := 0; i+len(prefix) < len(text); i++ {
+			if strings.HasPrefix(text[i:], prefix) {
+				t, _ := readSexp(text[i:])
+				if !seen[t] && !strings.Contains(t, "!q") { // no variables of nested quantifiers
+					seen[t] = true
+					pats = append(pats, t)
+				}
 			}
 		}
+	}
+	covered := func() bool {
+		for _, v := range bound {
+			ok := false
+			for _, p := range pats {
+				if strings.Contains(p, v.T) {
+					ok = true
+				}
+			}
+			if !ok {
+				return false
+			}
+		}
+		return true
+	}
+	collect(concl, "(sf_")
+	if !covered() {
+		collect(hyp, "(sf_")
+	}
+	if !covered() {
+		collect(concl, "(eaddr")
+	}
+	if !covered() {
+		collect(hyp, "(eaddr")
+	}
+	if !covered() {
+		pats = nil // no usable trigger: leave instantiation to the solver
 	}
 	if len(pats) > 0 {
 		return fmt.Sprintf("(forall (%s) (! %s :pattern (%s)))", strings.Join(binders, " "), body, strings.Join(pats, " "))
